@@ -146,6 +146,19 @@ def run(ctx):
                     badm = 'supported tables are not the projection of the supported records'
                 elif got2 != got1 or got3 != got1:
                     badm = 're-initialising is not idempotent'
+                if not badm and protos:
+                    # the predicates (other modules hold their own references to the tables) must follow
+                    # the rebuilt order
+                    from minecraft import utility as U
+                    for _ in range(6):
+                        a, b = rng.choice(protos), rng.choice(protos)
+                        try:
+                            r = (ConnectionContext(protocol_version=a).protocol_earlier(b),
+                                 U.protocol_earlier_eq(a, b))
+                        except KeyError as e:
+                            r = 'KeyError(%s)' % e
+                        if r != (protos.index(a) < protos.index(b), protos.index(a) <= protos.index(b)):
+                            badm = 'after extension and re-initialisation, earlier(%d, %d) = %r' % (a, b, r)
                 if badm:
                     ctx.violation(badm, {'records': [(r.id, r.protocol, r.supported) for r in cur]},
                                   key={'records': [(r.id, r.protocol, r.supported) for r in cur]})
